@@ -342,6 +342,11 @@ func isString(t types.Type) bool {
 	b, ok := t.Underlying().(*types.Basic)
 	return ok && b.Info()&types.IsString != 0
 }
+func isFloat(t types.Type) bool {
+	b, ok := t.Underlying().(*types.Basic)
+	return ok && b.Info()&types.IsFloat != 0
+}
+
 func isInteger(t types.Type) bool {
 	b, ok := t.Underlying().(*types.Basic)
 	return ok && b.Info()&types.IsInteger != 0
@@ -545,7 +550,7 @@ func (s *summarizer) build(v ssa.Value) *Term {
 		case token.NOT:
 			return simplifyBool(tNot(s.boolTerm(x.X)))
 		case token.SUB:
-			return &Term{Op: "neg", Args: []*Term{s.term(x.X)}, Num: true}
+			return &Term{Op: "neg", Args: []*Term{s.term(x.X)}, Num: true, Flt: isFloat(x.Type())}
 		}
 		return typed(&Term{Op: "unop", Val: x.Op.String(), Args: []*Term{s.term(x.X)}}, x.Type())
 	case *ssa.BinOp:
@@ -1062,16 +1067,16 @@ func (s *summarizer) binop(x *ssa.BinOp) *Term {
 		if isString(x.Type()) {
 			return &Term{Op: "concat", Args: []*Term{a, b}, Str: true}
 		}
-		return &Term{Op: "add", Args: []*Term{a, b}, Num: true}
+		return &Term{Op: "add", Args: []*Term{a, b}, Num: true, Flt: isFloat(x.Type())}
 	case token.SUB:
-		return &Term{Op: "sub", Args: []*Term{a, b}, Num: true}
+		return &Term{Op: "sub", Args: []*Term{a, b}, Num: true, Flt: isFloat(x.Type())}
 	case token.MUL:
-		return &Term{Op: "mul", Args: []*Term{a, b}, Num: true}
+		return &Term{Op: "mul", Args: []*Term{a, b}, Num: true, Flt: isFloat(x.Type())}
 	case token.QUO:
 		if isInteger(x.Type()) {
 			return &Term{Op: "idiv", Args: []*Term{a, b}, Num: true}
 		}
-		return &Term{Op: "div", Args: []*Term{a, b}, Num: true}
+		return &Term{Op: "div", Args: []*Term{a, b}, Num: true, Flt: isFloat(x.Type())}
 	case token.REM:
 		return &Term{Op: "mod", Args: []*Term{a, b}, Num: true}
 	case token.LSS, token.LEQ, token.GTR, token.GEQ, token.EQL, token.NEQ:
@@ -1303,7 +1308,7 @@ func (s *summarizer) callTerm(x *ssa.Call) *Term {
 	t := &Term{Op: "call", Val: name, Args: args}
 	// known pure numeric helpers keep their meaning
 	switch name {
-	case "math.Floor", "math.Round", "math.Abs", "math.Exp", "math.Max", "math.Min", "math.Pow", "math.Ceil", "math.Sqrt", "math.Trunc":
+	case "math.Floor", "math.Round", "math.Abs", "math.Exp", "math.Expm1", "math.Max", "math.Min", "math.Pow", "math.Ceil", "math.Sqrt", "math.Trunc":
 		t.Num = true
 		if name == "math.Max" || name == "math.Min" {
 			// symmetric: order the arguments canonically at evaluation time
